@@ -352,16 +352,41 @@ inline int driver_main(int argc, char **argv) {
             if (txt[e] == '\\' && e + 1 < txt.size()) e++;
             c += txt[e++];
         }
-        Runner R;
-        R.replaying = true;
-        R.tier = tier;
-        g_runner = &R;
-        setvbuf(stdout, nullptr, _IOLBF, 0);
-        seqx_replay(R, c);
-        if (!R.replay_failed) printf("OUTCOME sig=none\n");
+        // the case runs in a child so that a death without a report from our hooks (UBSan, abort in foreign code)
+        // still yields an OUTCOME line
+        int pfd[2];
+        if (pipe(pfd)) return 2;
         fflush(stdout);
-        if (getenv("SEQX_LEAKCHECK")) exit(R.replay_failed ? 1 : 0);
-        _exit(R.replay_failed ? 1 : 0);
+        pid_t cp = fork();
+        if (cp == 0) {
+            close(pfd[0]);
+            dup2(pfd[1], 1);
+            dup2(pfd[1], 2);
+            Runner R;
+            R.replaying = true;
+            R.tier = tier;
+            g_runner = &R;
+            setvbuf(stdout, nullptr, _IOLBF, 0);
+            seqx_replay(R, c);
+            if (!R.replay_failed) printf("OUTCOME sig=none\n");
+            fflush(stdout);
+            if (getenv("SEQX_LEAKCHECK")) exit(R.replay_failed ? 1 : 0);
+            _exit(R.replay_failed ? 1 : 0);
+        }
+        close(pfd[1]);
+        std::string out;
+        while ((n = (size_t)read(pfd[0], buf, sizeof buf)) > 0 && n != (size_t)-1) out.append(buf, n);
+        int st = 0;
+        waitpid(cp, &st, 0);
+        fwrite(out.data(), 1, out.size(), stdout);
+        if (out.find("OUTCOME sig=") == std::string::npos) {
+            const char *sig = out.find("runtime error") != std::string::npos ? "ubsan/runtime-error" : "crash/died";
+            printf("OUTCOME sig=%s\n", sig);
+            fflush(stdout);
+            return 1;
+        }
+        if (out.find("OUTCOME sig=none") != std::string::npos && WIFEXITED(st) && WEXITSTATUS(st) == 0) return 0;
+        return 1;
     }
     double t0 = wall();
     double deadline = t0 + deadline_s;
